@@ -53,6 +53,10 @@ mod parsing {
     }
 
     pub fn parse_mode(pattern: &str, for_dir: bool) -> Result<u32, Box<dyn Error>> {
+        // the numeric parser skips blanks ("7 ", " 7"); a mode has none
+        if pattern.contains(char::is_whitespace) {
+            return Err(From::from(format!("invalid mode '{pattern}'")));
+        }
         let mode = if pattern.contains(|c: char| c.is_ascii_digit()) {
             parse_numeric(0, pattern, for_dir)?
         } else {
